@@ -140,6 +140,23 @@ fn ex_optional_group(l: &str) -> Option<Span> {
     if lower(l) { Some((0, l.len())) } else { None }
 }
 
+/// `(k|j) (?P<value>[0-9]+)` — an ordinary (unnamed) capturing group in front of the `value` group: the key is
+/// still the `value` group. Leftmost match: the first `k` or `j` followed by a blank and a digit.
+fn ex_kj_group(l: &str) -> Option<Span> {
+    let b = l.as_bytes();
+    for i in 0..b.len() {
+        if (b[i] == b'k' || b[i] == b'j') && b.get(i + 1) == Some(&b' ') && b.get(i + 2).is_some_and(u8::is_ascii_digit) {
+            let s = i + 2;
+            let mut e = s;
+            while e < b.len() && b[e].is_ascii_digit() {
+                e += 1;
+            }
+            return Some((s, e));
+        }
+    }
+    None
+}
+
 pub const KEY_PATS: &[KeyPat] = &[
     KeyPat { re: "id:(?P<value>[0-9]+)", extract: ex_id_group, has_value_group: true },
     KeyPat { re: "id:[0-9]+", extract: ex_id_whole, has_value_group: false },
@@ -152,6 +169,7 @@ pub const KEY_PATS: &[KeyPat] = &[
     KeyPat { re: "id:(?<value>[0-9]+)", extract: ex_id_group, has_value_group: true },
     KeyPat { re: "^k(?<value>[a-z]*)", extract: ex_k_group_star, has_value_group: true },
     KeyPat { re: "^p:(?P<value>[a-z]+)$|^[a-z]+$", extract: ex_optional_group, has_value_group: true },
+    KeyPat { re: "(k|j) (?P<value>[0-9]+)", extract: ex_kj_group, has_value_group: true },
 ];
 
 pub fn key_pat(re: &str) -> Option<&'static KeyPat> {
